@@ -210,7 +210,7 @@ out:
 }
 
 /* ============================= C08 ============================= */
-typedef struct target { vd_cfg cfg; vd_search sp; vd_gram g; vd_audio a; vd_pattern p; uint64_t pseed; int reset_cmn; } target;
+typedef struct target { vd_cfg cfg; vd_search sp; vd_gram g; vd_audio a; vd_pattern p; uint64_t pseed; int reset_cmn; int dead_air; } target;
 
 static int g_no_reload;   /* the target's grammar is already active (same search object as the history utterances) */
 static int run_target(decoder_t *d, target *t, record *rec, int want_lattice)
@@ -227,6 +227,7 @@ static int run_target(decoder_t *d, target *t, record *rec, int want_lattice)
     record_get(d, rec, &info, want_lattice);
     return 0;
 }
+static int g_force_dead_air;
 static void make_target(vh_rng *r, target *t, int lang)
 {
     memset(t, 0, sizeof(*t));
@@ -239,6 +240,27 @@ static void make_target(vh_rng *r, target *t, int lang)
     vd_pattern_random(r, &t->p, 1);
     if (t->p.style == 3 && t->a.n > 30000) t->p.style = 2;
     t->pseed = vh_next(r);
+    if (g_force_dead_air || vh_chance(r, 0.04)) {
+        /* dead air in full-utterance batch mode: every frame counts as "zero energy", so the batch mean is estimated from nothing;
+         * whatever the estimator falls back to must not be the previous utterance's state.  The grammar accepts the empty sentence,
+         * so that silence yields a scored result. */
+        long n = VH_PICK(r, ((long[]){ 4000, 16000, 30000 })), j; int amp = (int)vh_below(r, 3), tries;
+        t->cfg.cmn = "batch"; memset(&t->p, 0, sizeof(t->p)); t->p.full_utt = 1; t->p.use_float = vh_chance(r, 0.3);
+        vd_audio_free(&t->a); memset(&t->a, 0, sizeof(t->a)); t->a.s = (int16_t *)calloc((size_t)n + 1, sizeof(int16_t)); t->a.n = n; t->a.samprate = 16000;
+        for (j = 0; j < n; ++j) t->a.s[j] = (int16_t)(amp ? vh_range(r, -amp, amp) : 0);
+        snprintf(t->a.desc, sizeof(t->a.desc), "dead air (+-%d LSB), %ld samples", amp, n);
+        for (tries = 0; tries < 40 && !t->g.accepts_empty; ++tries) { vd_gram_free(&t->g); vd_gram_random(r, lang, vh_chance(r, 0.5) ? VG_JSGF_SLOTS : VG_FSG_TEXT, 0.3, &t->g); }
+        if (!t->g.accepts_empty) {   /* a fixed grammar of optional words */
+            const char *w1 = lang == VD_FR ? "avance" : "go", *w2 = lang == VD_FR ? "de" : "forward"; int l1, l2;
+            vd_gram_free(&t->g); memset(&t->g, 0, sizeof(t->g)); t->g.kind = VG_JSGF_SLOTS; t->g.lang = lang; vh_sb_init(&t->g.text);
+            vh_sb_printf(&t->g.text, "#JSGF V1.0;\ngrammar opt;\npublic <top> = [ %s ] [ %s ];\n", w1, w2);
+            vfsa_init(&t->g.truth, 3, 0, 2); l1 = vfsa_label(&t->g.truth, w1); l2 = vfsa_label(&t->g.truth, w2);
+            vfsa_add(&t->g.truth, 0, 1, l1, 0); vfsa_add(&t->g.truth, 0, 1, VF_EPS, 0); vfsa_add(&t->g.truth, 1, 2, l2, 0); vfsa_add(&t->g.truth, 1, 2, VF_EPS, 0);
+            snprintf(t->g.desc, sizeof(t->g.desc), "JSGF of two optional words"); t->g.accepts_empty = 1;
+        }
+        t->dead_air = 1;
+        vh_count("dead_air_batch_targets", 1);
+    }
     /* in full-utterance batch mode no reset of the normalisation state is needed */
     t->reset_cmn = !(t->p.full_utt && !strcmp(t->cfg.cmn, "batch"));
 }
@@ -271,7 +293,7 @@ static void run_c08(long i, vh_rng *r)
 {
     int lang = vh_chance(r, 0.12) ? VD_FR : VD_EN, nh, k, rc, want_lat; target t; record fresh, after, again; decoder_t *df, *dl; char sdesc[300], pdesc[200], why[600], hdesc[1500] = "";
     int slot = lang, same_search = 0;
-    make_target(r, &t, lang);
+    g_force_dead_air = (i % 6 == 1); make_target(r, &t, lang); g_force_dead_air = 0;
     want_lat = t.sp.beam_mode != 2;
     vd_search_desc(&t.sp, sdesc, sizeof(sdesc)); vd_pattern_desc(&t.p, pdesc, sizeof(pdesc));
     /* (a) fresh decoder */
@@ -285,6 +307,7 @@ static void run_c08(long i, vh_rng *r)
     dl = longlived[slot]; ++longuses[slot];
     nh = vh_range(r, 0, 3);
     same_search = vh_chance(r, 0.4);
+    if (t.dead_air) { if (nh == 0) nh = 1; same_search = 0; }    /* the fallback of the batch estimator must not be what earlier speech left behind */
     if (!same_search) for (k = 0; k < nh; ++k) history_utterance(dl, r, lang, hdesc, sizeof(hdesc));
     else {
         /* the earlier utterances use the target's own grammar and search object (no reload in between):
